@@ -83,9 +83,9 @@ CLAIMED["C04"] = dict(
 )
 
 CLAIMED["C15"] = dict(
-    technique="interpretation (sa/objeval) of ConstantOpcode.new(v).encode() and of Cls(arg).encode() for every registered opcode class over boundary representatives of the property's value classes / of each pickletools descriptor, the bytes read back by pickletools.genops (the reader's specification); type-lattice evaluation of the validator priority search; constant folding of admitted integer ranges vs struct formats; interpretation of the UNICODE text encoder and of the inherited Opcode.encode_body over one representative per reader character class / per fixed-width descriptor; who-may-construct rule for classes with a defective encoder",
-    level="Decides two agreement rules: for every input kind every constant class that can win ConstantOpcode.new decodes (per pickletools) to that kind, within a range its format can hold; and every registered opcode class writes the shape its descriptor reads back, or refuses. Genuine findings on this tree are recorded (bool is captured by the integer classes; five legacy encoders disagree with their descriptors). Per-value escaping and boundary correctness (raw_unicode_escape on non-ASCII, float round trip, nested containers beyond their leaves) is value-level and not decided.",
-    note="Trusted: pickletools descriptors and stack_after kinds; the encoder pattern table in sa/props/c15.py (an unrecognised encoder ends ANALYSIS-ERROR).",
+    technique="interpretation (sa/objeval, an interpreter for the repository's own classes over abstract instances) of ConstantOpcode.new(v).encode() over boundary representatives of the property's value classes, of Cls(arg).encode() for every registered opcode class over representatives of its pickletools descriptor, and of the UNICODE text encoder over the reader's character classes; the produced bytes are read back by pickletools.genops (the reader's specification); who-may-construct rule for classes with a defective encoder; the type-level rules (validator priority search over kinds, admitted ranges vs struct formats) are kept as candidate information only",
+    level="Decides both halves of the property for the finite set of boundary representatives its quantifier names (integers around 0, 2^7, 2^8, 2^16, 2^31, 2^32, 2^63, 2^64 and huge, both signs; floats incl. -0.0, inf, nan; both booleans; text over ASCII / Latin-1 / BMP / astral / control / lone surrogate / numeric-looking / quotes / backslashes / newlines and at the 255/256-byte and 65535/65536-byte length boundaries; byte strings; non-constants): ConstantOpcode.new either refuses or yields an opcode whose interpreted encoding the standard disassembler reads as exactly one opcode carrying an equal value of the same kind; and every registered opcode class, constructed directly, encodes to bytes that disassemble back to that opcode and argument or refuses. The encoders touch their argument only through comparisons with constants, fixed-width packing and length computation, so one representative per boundary class decides the class; values strictly inside a class are not enumerated. Nested lists/dicts are decided structurally by C08 (argument encoder) down to these leaves. All findings this rule family produced on the pinned tree (text escaping, STRING family, LONG1/LONG4, booleans, lone surrogates) were repaired in /repo and are listed as fixed in known_findings.json.",
+    note="Trusted: pickletools.genops / descriptors as the reader's specification; struct.pack as pure arithmetic; sa/objeval.py (an unsupported construct ends ANALYSIS-ERROR, never a verdict); the mirror of ConstantOpcode's registration idiom (constant_registry).",
 )
 
 CLAIMED["C18"] = dict(
